@@ -12,9 +12,14 @@ Local Open Scope Z_scope.
 (* tests (gcc: both true)                                                                        *)
 Record cenv : Set := { e_c : Z; e_fileline : bool; e_gnuc : bool }.
 
+Definition eval_cmp (o : cmp) (x k : Z) : bool :=
+  match o with
+  | Ge => x >=? k | Gt => x >? k | Le => x <=? k | Lt => x <? k | Eq => x =? k | Ne => negb (x =? k)
+  end.
+
 Definition eval_atom (e : cenv) (a : catom) : bool :=
   match a with
-  | CDebugGe k pol => Bool.eqb (e_c e >=? k) pol
+  | CDebug o k pol => Bool.eqb (eval_cmp o (e_c e) k) pol
   | CFileLine pol => Bool.eqb (e_fileline e) pol
   | CGnuc pol => Bool.eqb (e_gnuc e) pol
   end.
@@ -28,14 +33,14 @@ Fixpoint select (e : cenv) (alts : list (list catom * mdef)) : option mdef :=
   | (p, d) :: t => if eval_path e p then Some d else select e t
   end.
 
-Fixpoint lookup (name : string) (l : list macro) : option macro :=
+Fixpoint lookup (name : mname) (l : list macro) : option macro :=
   match l with
   | [] => None
-  | m :: t => if String.eqb name (m_name m) then Some m else lookup name t
+  | m :: t => if mname_eqb name (m_name m) then Some m else lookup name t
   end.
 
 Definition eval_rcond (r : Z) (rc : rcond) : bool :=
-  match rc with RGe k => r >=? k | RConst b => b end.
+  match rc with RCmp o k => eval_cmp o r k | RConst b => b end.
 
 Definition stuck : list event * ctl := ([], Stuck).
 
@@ -87,7 +92,7 @@ Fixpoint exec (l : list macro) (fuel : nat) (e : cenv) (s : rt) : body -> list e
 Definition call_depth : nat := 8.
 
 (* one use of the macro [name] as a statement (a prefix macro guards one user statement) *)
-Definition run_in (l : list macro) (name : string) (e : cenv) (s : rt) : list event * ctl :=
+Definition run_in (l : list macro) (name : mname) (e : cenv) (s : rt) : list event * ctl :=
   match lookup name l with
   | Some m =>
       match select e (m_alts m) with
@@ -131,9 +136,9 @@ Definition observe (r : list event * ctl) : obs :=
 
 Definition printed (o : obs) : bool := o_dbg o || o_warn o || o_err o || o_fatal o.
 
-Definition behaviour_in (l : list macro) (name : string) (e : cenv) (s : rt) : obs := observe (run_in l name e s).
+Definition behaviour_in (l : list macro) (name : mname) (e : cenv) (s : rt) : obs := observe (run_in l name e s).
 (* the model of the current tree *)
-Definition behaviour : string -> cenv -> rt -> obs := behaviour_in ladder.
+Definition behaviour : mname -> cenv -> rt -> obs := behaviour_in ladder.
 
 (* the primitives themselves, probed directly *)
 Definition prim_behaviour (p : prim) (s : rt) : obs := observe (prim_model p s).
@@ -228,8 +233,8 @@ Definition spec_prim (p : prim) (s : rt) : obs :=
 
 (* every macro of the generated families with the kind it is held to; the level of a D_X macro is the
    one its documentation states *)
-Definition classify (hdr : list string) (asrt nr req : list (string * bool)) (ab : list string)
-           (dp : list (string * Z)) (dpp nev : list string) (ds : list dfam) : list (string * kind) :=
+Definition classify (hdr : list mname) (asrt nr req : list (mname * bool)) (ab : list mname)
+           (dp : list (mname * Z)) (dpp nev : list mname) (ds : list dfam) : list (mname * kind) :=
   map (fun n => (n, KHdr)) hdr ++
   map (fun p => (fst p, KAssert (snd p))) asrt ++
   map (fun p => (fst p, KNotreached (snd p))) nr ++
@@ -241,14 +246,17 @@ Definition classify (hdr : list string) (asrt nr req : list (string * bool)) (ab
   map (fun d => (d_name d, KD (d_doc d))) ds ++
   map (fun d => (d_if d, KDIf (d_doc d))) ds.
 
-Definition classified : list (string * kind) :=
+Definition classified : list (mname * kind) :=
   classify hdr_family assert_family notreached_family require_family abort_family
            dprintf_family dprintf_plain_family never_family d_family.
 
 (* ------------------------------------------------------------------------------------------- *)
 (* thresholds and representative values                                                          *)
-Definition atom_thr (a : catom) : list Z := match a with CDebugGe k _ => [k] | _ => [] end.
-Definition rcond_thr (rc : rcond) : list Z := match rc with RGe k => [k] | RConst _ => [] end.
+(* the values t such that the comparison can be decided from the truth values of (x >= t) *)
+Definition cmp_thr (o : cmp) (k : Z) : list Z :=
+  match o with Ge | Lt => [k] | Gt | Le => [k + 1] | Eq | Ne => [k; k + 1] end.
+Definition atom_thr (a : catom) : list Z := match a with CDebug o k _ => cmp_thr o k | _ => [] end.
+Definition rcond_thr (rc : rcond) : list Z := match rc with RCmp o k => cmp_thr o k | RConst _ => [] end.
 
 Fixpoint body_rthr (b : body) : list Z :=
   match b with
@@ -327,23 +335,23 @@ Definition all_flags (f : bool -> bool -> bool -> bool -> bool -> bool) : bool :
   forallb (fun fl => forallb (fun gn => forallb (fun si => forallb (fun na => forallb (fun co =>
     f fl gn si na co) bools) bools) bools) bools) bools.
 
-Definition check_cell (l : list macro) (nk : string * kind) (c r : Z) (fl gn si na co : bool) : bool :=
+Definition check_cell (l : list macro) (nk : mname * kind) (c r : Z) (fl gn si na co : bool) : bool :=
   obs_eqb (behaviour_in l (fst nk) (mk_env c fl gn) (mk_rt r si na co))
           (spec (snd nk) (mk_env c fl gn) (mk_rt r si na co)).
 
 Definition macro_cells_c (l : list macro) (k : kind) : list Z := cells (kind_cthr k ++ ladder_cthr l).
 Definition macro_cells_r (l : list macro) (k : kind) : list Z := cells (kind_rthr k ++ ladder_rthr l).
 
-Definition check_macro (l : list macro) (nk : string * kind) : bool :=
+Definition check_macro (l : list macro) (nk : mname * kind) : bool :=
   forallb (fun c => forallb (fun r => all_flags (check_cell l nk c r))
                             (macro_cells_r l (snd nk)))
           (macro_cells_c l (snd nk)).
 
-Definition check_all (l : list macro) (cl : list (string * kind)) : bool := forallb (check_macro l) cl.
+Definition check_all (l : list macro) (cl : list (mname * kind)) : bool := forallb (check_macro l) cl.
 
 (* every macro of the ladder is held to some kind *)
-Definition check_cover (l : list macro) (cl : list (string * kind)) : bool :=
-  forallb (fun m => existsb (fun nk => String.eqb (m_name m) (fst nk)) cl) l.
+Definition check_cover (l : list macro) (cl : list (mname * kind)) : bool :=
+  forallb (fun m => existsb (fun nk => mname_eqb (m_name m) (fst nk)) cl) l.
 
 (* exactly one alternative of a macro is reached in every compile-time environment *)
 Definition reached (e : cenv) (m : macro) : nat := List.length (filter (fun a => eval_path e (fst a)) (m_alts m)).
@@ -362,10 +370,13 @@ Definition check_prims : bool :=
 (* ------------------------------------------------------------------------------------------- *)
 (* diagnosis: the cells (macro, c, r, silent, name set, condition) of the gcc configuration on     *)
 (* which behaviour and specification differ; evaluated with vm_compute when a theorem breaks       *)
-Definition failing_cells_of (l : list macro) (nk : string * kind) : list (string * Z * Z * bool * bool * bool) :=
+Definition failing_cells_of (l : list macro) (nk : mname * kind) : list (mname * Z * Z * bool * bool * bool) :=
   flat_map (fun c => flat_map (fun r => flat_map (fun si => flat_map (fun na => flat_map (fun co =>
     if check_cell l nk c r true true si na co then [] else [(fst nk, c, r, si, na, co)])
     bools) bools) bools) (macro_cells_r l (snd nk))) (macro_cells_c l (snd nk)).
 
-Definition failing_cells : list (string * Z * Z * bool * bool * bool) :=
+Definition failing_cells : list (mname * Z * Z * bool * bool * bool) :=
   flat_map (failing_cells_of ladder) classified.
+(* at most n cells per macro, and how many there are in all *)
+Definition failing_cells_summary (n : nat) : nat * list (mname * Z * Z * bool * bool * bool) :=
+  (List.length failing_cells, flat_map (fun nk => firstn n (failing_cells_of ladder nk)) classified).
